@@ -54,9 +54,10 @@ Definition code_i (l : string) (r : rinfo) (m : pathmode) : option string :=
 Definition code_v (l : string) (r : rinfo) (m : pathmode) : option string :=
   option_map print_plan (plan_of (array_lang l) (ri_vnt r) (values_shape r) (ri_vbo r) (rpath m "values") "v" false).
 
-(* R cannot hold an int64 index beyond the int32 range *)
+(* R cannot hold an int64 index beyond the int32 range; the cut-off is GENERATED from the source
+   (Gen_tables.r_size_limit) *)
 Definition r_size_ok (r : rinfo) : bool :=
-  negb (numtype_eqb (ri_int r) Int64 && Z.ltb 2147483647 (ri_vlen r * prodZ (ri_atom r))).
+  negb (numtype_eqb (ri_int r) Int64 && Z.ltb r_size_limit (ri_vlen r * prodZ (ri_atom r))).
 
 Definition rank (r : rinfo) : nat := List.length (ri_atom r).
 
